@@ -58,6 +58,36 @@ def check_state(agg, names, make, site_prefix, case, expect_model=True):
     """The full oracle on a table produced by make() (called several times: observations mutate caches)."""
     W = len(names)
     agg.compared += 1
+    # ---- BEFORE anything asks the table for its accessors (dir() and repr() refresh its bookkeeping): a program that knows the
+    # documented sanitisation rule uses the accessor of a first-occurrence name directly - attribute access, row access and
+    # item assignment reach that very column
+    if expect_model:
+        seen0 = set()
+        for i, nm in enumerate(names):
+            base = model_sanitize(nm) if nm is not None else None
+            want = base if base is not None else f"col{i}_"
+            if base is not None and base in seen0:
+                continue
+            if base is not None:
+                seen0.add(base)
+            for how in ("getattr", "row", "setitem"):
+                tb = make()
+                try:
+                    if how == "getattr":
+                        ok_ = getattr(tb, want) is tb.cols()[i]
+                    elif how == "row":
+                        ok_ = getattr(tb[0], want) == tb.cols()[i]._underlying[0]
+                    else:
+                        before = [list(c._underlying) for c in tb.cols()]
+                        tb[0, want] = 4242
+                        before[i][0] = 4242
+                        ok_ = [list(c._underlying) for c in tb.cols()] == before
+                    got = None if ok_ else "another column"
+                except Exception as e:
+                    ok_, got = False, type(e).__name__
+                if not ok_:
+                    agg.violation(V(f"{site_prefix}.{how}", "documented-accessor-does-not-reach-its-column-before-dir-is-called", dict(case, accessor=want, column=i), i, got))
+                    return False
     t = make()
     try:
         adv = advertised(t)
@@ -266,7 +296,7 @@ class Driver:
         W = len(names)
         ev = [("dir",), ("repr",)]
         for c in range(W):
-            ev += [("getattr", c), ("rowattr", c), ("setitem_acc", c), ("replace", c)]
+            ev += [("getattr", c), ("rowattr", c), ("setitem_acc", c), ("replace", c), ("replace_idx", c)]
             for ni in range(len(self.names)):
                 ev.append(("ren_view", c, ni))
                 if isinstance(names[c], str) and names.index(names[c]) == c:
@@ -326,6 +356,12 @@ class Driver:
                 if a is None:
                     raise Disabled()
                 setattr(t, a, [600 + world.fresh(), 600 + world.fresh()])
+            elif op == "replace_idx":
+                # the indexed form  t.<sanitised name>__<column number> = values, written from the documented rule (dir() is not asked)
+                base = model_sanitize(names[ev[1]]) if names[ev[1]] is not None else None
+                if base is None:
+                    raise Disabled()
+                setattr(t, f"{base}__{ev[1]}", [650 + world.fresh(), 650 + world.fresh()])
             elif op == "ren_view":
                 new = self.names[ev[2]]
                 t.cols()[ev[1]].name = new
